@@ -18,7 +18,7 @@ from core import Report, ToolError
 from common import TRUSTED, first_with
 
 TRACE_SPEC = "trace/T_C07.tla"
-ACTIONS = ["MCSetup", "Start", "PopVisit", "PopDefer", "UpdateEdge", "FinishNode", "Finish"]
+ACTIONS = ["MCSetup", "Start", "PopVisit", "PopDefer", "UpdateEdgeWith", "FinishNode", "Finish"]
 INVARIANTS = "ConfigInClass LfpIsLeast TypeOK StepBound BelowLFP AboveStart WorklistInv Result HonestStabilized StabilizedIsLeast"
 
 MANIFEST = {
@@ -49,13 +49,14 @@ def _check_coverage(rep, label):
 
 
 def _mc(rep, tier):
-    jobs = [("MC_Fixpoint quick (2 nodes, BFS)", "MC_Fixpoint.cfg", dict(workers=6, coverage=True)),
-            ("MC_Fixpoint liveness (2 nodes)", "MC_Fixpoint_live.cfg", dict(workers=2))]
+    jobs = [("MC_Fixpoint quick (2 nodes, BFS)", "MC_Fixpoint.cfg", dict(workers=8, coverage=True)),
+            ("MC_Fixpoint liveness (2 nodes, 2 edges)", "MC_Fixpoint_live.cfg", dict(workers=2))]
     if tier == "thorough":
         jobs = [("MC_Fixpoint quick (2 nodes, BFS)", "MC_Fixpoint.cfg", dict(workers=4, coverage=True)),
-                ("MC_Fixpoint liveness (2 nodes)", "MC_Fixpoint_live.cfg", dict(workers=2)),
-                ("MC_Fixpoint thorough (2 nodes, 4 edges, BFS)", "MC_Fixpoint_t2.cfg", dict(workers=4)),
-                ("MC_Fixpoint thorough (3 nodes, BFS)", "MC_Fixpoint_t3.cfg", dict(workers=6)),
+                ("MC_Fixpoint liveness (2 nodes, 3 edges)", "MC_Fixpoint_live3.cfg", dict(workers=2)),
+                ("MC_Fixpoint liveness (3 nodes, cyclic graphs)", "MC_Fixpoint_cyc3.cfg", dict(workers=3)),
+                ("MC_Fixpoint thorough (2 nodes, 4 edges, BFS)", "MC_Fixpoint_t2.cfg", dict(workers=3)),
+                ("MC_Fixpoint thorough (3 nodes, BFS)", "MC_Fixpoint_t3.cfg", dict(workers=4)),
                 ("MC_Fixpoint simulation (4 nodes, 5 edges)", "MC_Fixpoint_sim4.cfg",
                  dict(workers=2, extra=["-simulate", "num=30000", "-depth", "100", "-seed", str(rep.seed)]))]
     with cf.ThreadPoolExecutor(max_workers=len(jobs)) as ex:
@@ -147,8 +148,8 @@ def check(seed, tier):
                 "n <= 6, random ones beyond, Computation::new, bottom-up/top-down; compute() and compute_with_max_steps(1,2,3,100). "
                 "spec->impl part: problems exported by TLC from the model-checking instance, under Computation::new and all permutations.",
         "samples": meta["samples"][:2] + meta_mc["samples"][:1],
-        "exhaustive": True,
-        "exhaustive_scope": "model checking: all problems of the instance constants (see spec/mc/MC_Fixpoint*.cfg) and all schedules; "
+        "exhaustive": False,
+        "exhaustive_parts": "model checking: all problems of the instance constants (see spec/mc/MC_Fixpoint*.cfg) and all schedules; "
                             "trace validation: all priority permutations for every generated problem with <= 6 nodes; "
                             "graphs/transfers themselves are sampled",
         "generator": dict(meta["extra"], **meta_mc["extra"]),
